@@ -267,6 +267,7 @@ RULE = (
     "the code's own answer and the box centre (NLL(x_code) <= NLL(witness) + 1e-4 x scale); excitation - exact optimum by bisection on t "
     "with an LP feasibility problem (|b-q| <= t(1+b)(1+q) is linear in q), tolerance 2.5e-2 excitation units (default SCS bisection); in gamut - the target "
     "itself (2e-2). Non-trivial = baseline != 0 or an out-of-gamut target."
+    " Poisson and agreement cases draw batch_size in {None,2,3,full}; a fifth hand over whole-number targets as int64; a quarter of the Poisson cases contain one (nearly) dark target entry (0, 1e-6..1e-12)."
 )
 
 PROP = Prop(
